@@ -80,6 +80,29 @@ Example C17_history_example :
   = (true, false, true).
 Proof. vm_compute. reflexivity. Qed.
 
+(* the decoder, with the pair (blocks of the shard buffer, bits of the received bitmap) *)
+Theorem C17_history_dec : forall junk s ops K R sb x x',
+  s_dec s = Some x -> forallb keeps_dec ops = true -> s_dec (steps junk s ops) = Some x' ->
+  dec_need (rate_of (d_codec x') K R) K R sb <= dw_cap (d_work x) ->
+  dec_bits (rate_of (d_codec x') K R) K R <= dw_bits (d_work x) ->
+  s_alloc (fst (step junk (steps junk s ops) (DReset K R sb))) = false.
+Proof. exact dec_history_no_alloc. Qed.
+Print Assumptions C17_history_dec.
+
+Theorem C17_history_held_dec : forall junk ops s, forallb keeps_dec ops = true ->
+  dec_obj_cap s <= dec_obj_cap (steps junk s ops) /\ dec_obj_bits s <= dec_obj_bits (steps junk s ops).
+Proof. exact steps_dec_cap_mono. Qed.
+Print Assumptions C17_history_held_dec.
+
+Example C17_history_dec_example :
+  let j := fun _ _ _ : N => 0 in
+  let s1 := fst (step j init (DNew CLow NoSimd 5 3 128)) in
+  let ops := [DReset 3 2 64; DAddO 0 (repeat 1 64); DReset 0 0 0; EParts; DReset 2 1 2] in
+  let s2 := steps j s1 ops in
+  (forallb keeps_dec ops, s_alloc (fst (step j s2 (DReset 5 3 128))), s_alloc (fst (step j s2 (DReset 9 3 128))))
+  = (true, false, true).
+Proof. vm_compute. reflexivity. Qed.
+
 Example C17_example :
   let j := fun _ _ _ : N => 0 in
   let s1 := fst (step j init (ENew CHigh NoSimd 5 3 128)) in
